@@ -17,6 +17,12 @@ pub open spec fn await_gate<Req, Res, E>(tr: Trace<Req, Res, E>) -> bool { true 
 
 // ---- unit prelude (ASSUMED) ----
 pub trait VClone: Sized { fn clone(&self) -> (r: Self) ensures r == *self; }
+/// `Clone::clone` of a user type (response, error): returns an equal value — or PANICS; a panic unwinds through the caller, so
+/// no registration duty may be held outside a guard at this point
+pub fn vx_user_clone<T: VClone, Req, Res, E>(v: &T, Tracked(tr): Tracked<&mut Trace<Req, Res, E>>) -> (r: T)
+    requires old(tr).unguarded == 0,   // #no_unguarded_duty_when_a_user_clone_may_panic [C11]
+    ensures r == *v, *final(tr) == *old(tr),
+{ v.clone() }
 /// tokio::sync::broadcast: a channel is identified by a ghost id; subscribe() yields a receiver of that channel;
 /// send() delivers to every receiver of that channel; when the last sender is dropped receivers see Closed.
 pub struct Sender<Res, E> { pub id: Ghost<int>, pub p: PhantomData<(Res, E)> }
